@@ -1,6 +1,5 @@
 //! Independent reference models used as oracles.
 pub mod hash;
 pub mod notes;
-#[cfg(feature = "full")]
 pub mod structs;
 pub mod locator;
